@@ -59,10 +59,16 @@ class C13(Check):
                             "seed": rng.randrange(1, 1 << 30)}
                     fl = "par-asan" if rng.random() < 0.15 else ("par-tsan" if rng.random() < 0.06 and n <= 30000 else "par")
                     jobs.append({"flavour": fl, "kind": "c13", "args": args, "timeout": 300})
-            for _ in range(150 if quick else 400):
+            for i in range(1200 if quick else 2400):
                 args = {"threads": rng.choice([2, 2, 3]), "elems": rng.randint(3, 10), "ops": rng.randint(2, 5),
                         "dseed": rng.randrange(1 << 30), "sync": 1, "stay": rng.choice([0, 20, 50, 80]), "seed": rng.randrange(1, 1 << 30),
                         "mode": rng.choice([0, 0, 2]), "pctd": rng.randint(1, 3), "pctlen": 200}
+                if i % 3:
+                    # trees of equal rank built sequentially first (a random perfect matching, optionally matched again), then
+                    # one or two concurrent operations per thread on few elements: the threads meet on the same pair of roots
+                    # through different element pairs, and the structure is inspected raw at quiescence
+                    args.update({"shape": rng.choice([1, 1, 2]), "elems": rng.choice([4, 4, 4, 5, 6, 8]), "ops": rng.choice([1, 1, 2, 3]),
+                                 "prelude": rng.choice([0, 0, 1]), "threads": rng.choice([2, 2, 2, 3])})
                 jobs.append({"flavour": "par", "kind": "c13uf", "args": args, "timeout": 120})
             for _ in range(150 if quick else 400):
                 args = {"threads": rng.choice([2, 2, 3]), "ops": rng.randint(1, 4), "logsize": rng.choice([2, 3, 3, 4]),
